@@ -80,10 +80,10 @@ def termRows (size : Nat) (vals : List JV) : List (JV × Nat) := termTop size (t
 
 /-! ### numeric reading -/
 
-/-- `cast.ToFloat64E` on decoded JSON: numbers, booleans (1/0), numeric text (`numOf` stands for
-    strconv.ParseFloat), nil ↦ 0; lists and maps are errors. -/
+/-- `cast.ToFloat64E` (spf13/cast v1.3.0) on decoded JSON: numbers, booleans (1/0), numeric text
+    (`numOf` stands for strconv.ParseFloat); nil, lists and maps are errors. -/
 def toFloat (numOf : String → Option Int) : JV → Option Int
-  | .null => some 0
+  | .null => none
   | .num n => some n
   | .bool b => some (if b then 1024 else 0)
   | .str s => numOf s
